@@ -1,4 +1,5 @@
 import CkcVerif.Model.Hand
+import CkcVerif.Generated.Presets
 /-!
 # `src/cards/six.rs`, `src/cards/seven.rs` — best five of six / seven
 -/
